@@ -353,13 +353,14 @@ class _FnCollector:
         sys.setprofile(None)
 
 
-def replay(harness, inputs, known=()):
+def replay(harness, inputs, known=(), role="witness"):
     """Run the harness on concrete inputs against the real code, no CrossHair.
 
     Returns ("ok", observation, goals) | ("violation", message) | ("assume", None) |
     ("error", traceback)
     """
     I = Conc(inputs, known)
+    I.role = role  # "witness" (per-path validation), "cex" (counterexample), "known" (known finding)
     try:
         obs = harness(I)
         return ("ok", jsonable(obs), sorted(I.goals))
